@@ -163,6 +163,79 @@ def search_decoders(ctx, protos, valid, per):
     return hits
 
 
+def damaged_frames(frame):
+    """Systematic damage of one frame of the protocol: every single duration and every neighbouring pair dropped (the lost data bit
+    of a repeat frame), and the first a / last b durations kept with everything between them lost."""
+    f = list(frame)
+    n = len(f)
+    out = []
+    for i in range(n):
+        out.append(('drop1@%d' % i, f[:i] + f[i + 1:]))
+    for i in range(n - 1):
+        out.append(('drop2@%d' % i, f[:i] + f[i + 2:]))
+    for a in range(0, 5):
+        for b in range(1, 4):
+            if a + b < n:
+                out.append(('keep%d+%d' % (a, b), f[:a] + f[n - b:]))
+    return [(k, g) for k, g in out if g]
+
+
+def search_held(ctx, protos, per, hits):
+    """Damaged frames of the protocol fed to a decoder that holds a key (it has just decoded one complete code of the protocol, the
+    way it is transmitted with one repeat): the repeat-frame path of decode() and the multi-part state are only reachable from
+    there.  Candidates come from every distinct frame of encode(repeat_count=1); short frames (the repeat frames) are taken whole."""
+    from pyIRDecoder import IRException
+    rng = ctx.rng
+    n_cases = 0
+    for p in protos:
+        name = p['name']
+        a = gen_inputs.param_assignments(p, rng, 1)[0]
+        kw = dict(repeat_count=1) if 'repeat_count' in p['enc_args'] else {}
+        c, e = engine.fresh_encode(p, a, **kw)
+        if c is None:
+            continue
+        frames = []
+        for f in c.normalized_rlc:
+            if list(f) not in frames:
+                frames.append(list(f))
+        cands = []
+        for f in frames:
+            d = damaged_frames(f)
+            cands += d if len(d) <= 60 else rng.sample(d, 60)
+        if per and len(cands) > per:
+            cands = cands[-60:] + rng.sample(cands[:-60], per - 60) if per > 60 else rng.sample(cands, per)
+        seen = set()
+        for kind, data in cands:
+            for hist in ((frames[0],), tuple(frames)):
+                inst = p['cls']()
+                out = None
+                with engine.class_guard(p['cls']):
+                    for h in hist:
+                        try:
+                            inst.decode(list(h), p['frequency'])
+                        except Exception:  # noqa
+                            pass
+                    try:
+                        inst.decode(list(data), p['frequency'])
+                    except IRException:
+                        pass
+                    except Exception as e:  # noqa
+                        out = (type(e).__name__, site_of(e))
+                    finally:
+                        vlib.drain_workers()
+                n_cases += 1
+                ctx.count_eval(key=(name, 'held-damaged', kind, len(hist)))
+                if out is not None and out not in seen:
+                    seen.add(out)
+                    hits[name] = True
+                    ctx.report(name, 'decode leaks %s at %s' % out, dict(n=len(data)),
+                               dict(protocol=name, data=data, exception=out[0], site=out[1],
+                                    input_kind=kind + ' on a decoder holding a key', params=a, history=[list(h) for h in hist]))
+                if len(frames) == 1:
+                    break
+    ctx.extra['held_key_damaged_cases'] = n_cases
+
+
 def search_dispatcher(ctx, valid, n):
     """protocols.decode with every protocol enabled: never raises."""
     rng = ctx.rng
@@ -243,6 +316,7 @@ def run(ctx):
     quick = ctx.tier == 'quick'
     valid = valid_frames(protos, ctx.rng)
     hits = search_decoders(ctx, protos, valid, 120 if quick else 3000)
+    search_held(ctx, protos, 150 if quick else 0, hits)
     recs = search_dispatcher(ctx, valid, 60 if quick else 1500)
     search_stream(ctx, valid, 25 if quick else 600)
     results = perproto.run_obligations(ctx, 'C08', info, gen_obligation, timeout=180)
@@ -309,9 +383,9 @@ def replay(path):
     if 'data' in r and 'protocol' in r:
         p = protoinfo.by_name()[r['protocol']]
         inst = p['cls']()
-        if r.get('held_key_frame'):
+        for h in ([r['held_key_frame']] if r.get('held_key_frame') else []) + list(r.get('history') or []):
             try:
-                inst.decode(list(r['held_key_frame']), p['frequency'])
+                inst.decode(list(h), p['frequency'])
             except Exception:  # noqa
                 pass
         try:
